@@ -372,6 +372,41 @@ fn run(ctx: &mut Ctx) {
             }
         }
     }
+    // family 2d: zero padding. k leading zeros (k = 0..=70, 100, 1000) in front of every string of length <= 3 over the
+    // family-1 alphabet and a few longer tails: leading zeros carry no value, and a long run of them must not stop the reader
+    // from reading - and validating - what follows
+    {
+        let mut tails: Vec<String> = vec![];
+        for len in 1..=3usize {
+            for k in 0..6u64.pow(len as u32) {
+                tails.push(nth_string(len, k));
+            }
+        }
+        for t in ["123", "1.2.3", "1x", "x", "1,000", "1,00", "12345678901234567890", "0.0000000000000000000000000001", "79228162514264337593543950335", "79228162514264337593543950336"] {
+            tails.push(t.to_string());
+        }
+        let mut ks: Vec<usize> = (0..=70).collect();
+        ks.extend([100usize, 1000]);
+        for k in ks {
+            for t in &tails {
+                for neg in [false, true] {
+                    if !ctx.next_is_mine() {
+                        ctx.skip_cases(1);
+                        continue;
+                    }
+                    let s = format!("{}{}{}", if neg { "-" } else { "" }, "0".repeat(k), t);
+                    ctx.case(
+                        || format!("PrettyDecimal::from_str({:?}) [{} leading zeros]", s, k),
+                        || {
+                            let exp = reference(&s);
+                            let got = PrettyDecimal::from_str(&s).map_err(|e| e.to_string());
+                            judge(&s, &exp, &got)
+                        },
+                    );
+                }
+            }
+        }
+    }
     // family 2b: literals whose true mantissa is congruent to a small number modulo 2^128 / 2^96 / 2^64
     // (a reader that accumulates in a fixed-width integer and wraps would silently accept them)
     for (mi, modulus) in ["340282366920938463463374607431768211456", "79228162514264337593543950336", "18446744073709551616"].iter().enumerate() {
